@@ -127,6 +127,11 @@ def step (args : List String) : String :=
     match id.toNat?, parseHex h, parseBool rem with
     | some id, some d, some rem => showMsg (some (periodicMessage id d rem))
     | _, _, _ => "bad-op"
+  | ["pup", id, h, rem, ups, _mod] =>
+    match id.toNat?, parseHex h, parseBool rem, (ups.splitOn ",").mapM parseHex with
+    | some id, some d, some rem, some ups =>
+      showMsg (some (ups.foldl periodicUpdate (periodicMessage id d rem)))
+    | _, _, _, _ => "bad-op"
   | ["scan", ids] =>
     match parseNatList ids with
     | some ids => showNodes (scanFeed [] ids)
